@@ -340,7 +340,10 @@ esl_ct2wuss(int *ct, int n, char *ss)
 	    cct[i]     = 0;
 	    cct[ct[i]] = 0;
 	  }
-	  else  ESL_EXCEPTION(eslEINVAL, "Don't have enough letters to describe all different pseudoknots.");	      
+	  else {
+	    esl_stack_Destroy(pda); esl_stack_Destroy(auxpk); esl_stack_Destroy(auxss); free(cct); 
+	    ESL_EXCEPTION(eslEINVAL, "Don't have enough letters to describe all different pseudoknots.");
+	  }
 	    	  
 	} 	
       } /* while there is something in auxpk stack */
@@ -519,7 +522,10 @@ esl_ct2simplewuss(int *ct, int n, char *ss)
 	    cct[i]     = 0;
 	    cct[ct[i]] = 0;
 	  }
-	  else  ESL_EXCEPTION(eslEINVAL, "Don't have enough letters to describe all different pseudoknots.");	      
+	  else {
+	    esl_stack_Destroy(pda); esl_stack_Destroy(auxpk); free(cct); 
+	    ESL_EXCEPTION(eslEINVAL, "Don't have enough letters to describe all different pseudoknots.");
+	  }
 	    	  
 	} 	
       } /* while there is something in auxpk stack */
